@@ -45,7 +45,7 @@ type ConnSpec struct {
 func msgID(ci, k int) int64 { return int64((ci+1)*1000 + k) }
 
 func (sp *Spec) scn() *Scn {
-	return &Scn{Name: sp.Name, Props: sp.Props, Quick: sp.Quick, Thor: sp.Thor, MaxPts: sp.MaxPts, Body: sp.body, Check: sp.check}
+	return &Scn{Name: sp.Name, Props: sp.Props, Quick: sp.Quick, Thor: sp.Thor, MaxPts: sp.MaxPts, Body: sp.body, Check: sp.check, Spec: sp}
 }
 
 func (sp *Spec) check(x *vrt.Sched, w *World) []Finding {
@@ -88,13 +88,13 @@ func (sp *Spec) body() {
 		ci := ci
 		tname := connName(sp, ci)
 		vrt.GoNamed(tname, func() {
-			defer func() { done++ }()
+			defer func() { vrt.Atomic(func() { done++ }) }()
 			var chain func(i int)
 			chain = func(i int) {
 				cs := sp.Conns[i]
 				name := connName(sp, i)
 				runClient(w, i, name, &cs)
-				w.Notes[name+"-done"]++
+				vrt.Atomic(func() { w.Notes[name+"-done"]++ })
 				for j := range sp.Conns {
 					if sp.Conns[j].After == i+1 {
 						chain(j)
@@ -124,7 +124,7 @@ func (sp *Spec) body() {
 	if !sp.StopBeforeRun {
 		w.Stop()
 	}
-	w.Notes["stopped"]++
+	vrt.Atomic(func() { w.Notes["stopped"]++ })
 }
 
 var curSpec *Spec
@@ -156,7 +156,7 @@ func runClient(w *World, ci int, name string, cs *ConnSpec) {
 	switch cs.TLS {
 	case "listener":
 		if err := cl.UpgradeTLS(ccfg); err != nil {
-			w.Notes[name+"-handshake-failed"]++
+			vrt.Atomic(func() { w.Notes[name+"-handshake-failed"]++ })
 			cl.Close()
 			return
 		}
@@ -191,14 +191,14 @@ func runClient(w *World, ci int, name string, cs *ConnSpec) {
 			} else {
 				cl.ReadFrames(expectSoFar) // the StartTLS response, in plaintext
 			}
-			w.Notes[name+"-starttls-response"]++
+			vrt.Atomic(func() { w.Notes[name+"-starttls-response"]++ })
 			if err := cl.UpgradeTLS(ccfg); err != nil {
-				w.Notes[name+"-handshake-failed"]++
+				vrt.Atomic(func() { w.Notes[name+"-handshake-failed"]++ })
 				vrt.Logf("client %s handshake failed", name)
 				cl.Close()
 				return
 			}
-			w.Notes[name+"-upgraded"]++
+			vrt.Atomic(func() { w.Notes[name+"-upgraded"]++ })
 			continue
 		}
 		pending = append(pending, reqBytes(op, msgID(ci, k))...)
@@ -247,4 +247,18 @@ func connName(sp *Spec, i int) string {
 		return n
 	}
 	return fmt.Sprintf("c%d", i+1)
+}
+
+// realOK: the scenario can be replayed on real sockets (no modelled receive window, no virtual idle time,
+// no harness-side extras that use the model's introspection).
+func (sp *Spec) realOK() bool {
+	if sp.Srv.ReadTimeout > 0 || sp.Srv.WriteTimeout > 0 || sp.Extra != nil || sp.ExpectCrash || sp.ClientsIdle || len(sp.Conns) == 0 || sp.MaxPts > 0 {
+		return false
+	}
+	for _, c := range sp.Conns {
+		if c.RecvBuf > 0 || c.IdleFor > 0 || c.End == "stay" || c.End == "half" {
+			return false
+		}
+	}
+	return true
 }
